@@ -1420,3 +1420,412 @@ func ruleMemoOnSuccess(c *eng.Ctx) {
 		}
 	}
 }
+
+// R5.8 [C05]
+func ruleLimitTruncationFilters(c *eng.Ctx) {
+	limitTruncation(c, "R5.8-LIMIT-TRUNCATION")
+}
+
+// R20.7 [C20]
+func ruleLimitTruncationAdmission(c *eng.Ctx) {
+	limitTruncation(c, "R20.7-LIMIT-TRUNCATION")
+}
+
+func limitTruncation(c *eng.Ctx, R string) {
+	c.Rule(R, "data read through io.LimitReader is not taken for the whole input: the function compares what was read with the limit (reading limit+1 and rejecting, or checking the count). A bare LimitReader reports a clean end of input at the cap, so a long stream is silently cut (a decoded stream is no longer the inverse of its encoding; a truncated XML part fails to parse and is misjudged)", 0, 1)
+	for _, fn := range c.P.ModuleFuncs() {
+		n := 0
+		for _, ci := range eng.Calls(fn, false, func(name string, _ ssa.CallInstruction) bool { return name == "io.LimitReader" }) {
+			n++
+			limit := ci.Common().Args[1]
+			atoms := []ssa.Value{limit}
+			var walk func(v ssa.Value, d int)
+			walk = func(v ssa.Value, d int) {
+				if d > 3 {
+					return
+				}
+				switch x := v.(type) {
+				case *ssa.BinOp:
+					for _, o := range []ssa.Value{x.X, x.Y} {
+						atoms = append(atoms, o)
+						walk(o, d+1)
+					}
+				case *ssa.Convert:
+					atoms = append(atoms, x.X)
+					walk(x.X, d+1)
+				}
+			}
+			walk(limit, 0)
+			isAtom := func(v ssa.Value) bool {
+				for w := range eng.Slice(v, throughBuiltins) {
+					for _, a := range atoms {
+						if _, isC := a.(*ssa.Const); isC {
+							if ka, ok := eng.ConstInt(a); ok {
+								if kw, ok := eng.ConstInt(w); ok && (kw == ka || kw == ka-1 || kw == ka+1) && ka > 1 {
+									return true
+								}
+							}
+							continue
+						}
+						if w == a || eng.SameValue(w, a) {
+							return true
+						}
+					}
+				}
+				return false
+			}
+			checked := false
+			eng.Instrs(fn, false, func(in ssa.Instruction) {
+				b, ok := in.(*ssa.BinOp)
+				if !ok {
+					return
+				}
+				switch b.Op {
+				case token.LSS, token.LEQ, token.GTR, token.GEQ, token.EQL, token.NEQ:
+				default:
+					return
+				}
+				if !eng.InstrDominates(ci, b) {
+					return
+				}
+				if isAtom(b.X) || isAtom(b.Y) {
+					checked = true
+				}
+			})
+			c.Check(checked, R, fmt.Sprintf("%s#LimitReader%d", eng.FuncName(fn), n), ci.Pos(), "the amount read is compared with the limit", "the input is read through io.LimitReader and never compared with the limit: input longer than the cap is silently truncated instead of being rejected")
+		}
+	}
+}
+
+// R4.9 [C04]
+func ruleXRefEntriesTotal(c *eng.Ctx) {
+	const R = "R4.9-XREF-ENTRIES-TOTAL"
+	c.Rule(R, "the cross-reference parsers and the revision merge record every entry they read, whatever its kind: the update of the table in the entry loop is not skipped depending on the entry's content. Free entries matter: a newer revision frees an object by a free entry that must override the older in-use one", 3, 0)
+	for _, name := range []string{"core.(*XRefParser).parseXRefStream", "core.(*XRefParser).parseTraditionalXRef", "core.MergeXRefTables"} {
+		fn := c.P.Func(name)
+		if fn == nil {
+			c.Undec(R, name, token.NoPos, "anchor not found")
+			continue
+		}
+		n := 0
+		type site struct {
+			ci ssa.CallInstruction
+			in *ssa.Function
+		}
+		var sites []site
+		for _, h := range eng.Cluster(fn, 2) { // the loop may have been moved into a helper
+			for _, ci := range eng.Calls(h, false, func(nm string, _ ssa.CallInstruction) bool { return nm == "core.(*XRefTable).Set" }) {
+				if eng.InLoop(ci.Block()) {
+					sites = append(sites, site{ci, h})
+				}
+			}
+		}
+		for _, st := range sites {
+			ci, fn := st.ci, st.in
+			n++
+			entry := ci.Common().Args[len(ci.Common().Args)-1]
+			bad := ""
+			for _, b := range fn.Blocks {
+				if len(b.Instrs) == 0 || !b.Dominates(ci.Block()) || b == ci.Block() {
+					continue
+				}
+				iff, ok := b.Instrs[len(b.Instrs)-1].(*ssa.If)
+				if !ok {
+					continue
+				}
+				// does the condition read the entry (a field of it, or the value it was built from)?
+				reads := false
+				for w := range eng.Slice(iff.Cond, nil) {
+					if fr, ok := eng.AsField(w); ok && strings.HasSuffix(fr.Struct, "core.XRefEntry") {
+						for u := range eng.Slice(fr.Base, nil) {
+							if u == entry || eng.SameValue(u, entry) {
+								reads = true
+							}
+						}
+						if fr.Base == entry {
+							reads = true
+						}
+					}
+				}
+				if !reads {
+					continue
+				}
+				// one branch goes round the loop (or on) without the update
+				for _, s := range b.Succs {
+					reach := eng.ReachableBlocks([]*ssa.BasicBlock{s}, func(x *ssa.BasicBlock) bool { return x == ci.Block() })
+					if reach[b] && s != ci.Block() && !s.Dominates(ci.Block()) {
+						bad = c.P.Pos(iff.Cond.Pos())
+					}
+				}
+			}
+			c.Check(bad == "", R, fmt.Sprintf("%s#record%d", name, n), ci.Pos(), "every entry read is recorded", "the entry is recorded only if a test of its own content passes (test at "+bad+"): entries of some kind (free entries) are dropped, and an older revision's entry for the same object survives the merge")
+		}
+		if n == 0 {
+			c.Viol(R, eng.FuncName(fn)+"#record", fn.Pos(), "no entry is recorded in a loop")
+		}
+	}
+}
+
+// R3.6 [C03]
+func ruleParsedDictsReadOnly(c *eng.Ctx) {
+	const R = "R3.6-PARSED-DICT-READONLY"
+	c.Rule(R, "outside the parser that builds it, a PDF dictionary (core.Dict) is only written when the function created it (make / literal): dictionaries reached from parameters or from other dictionaries are parsed document objects shared through the reader's object cache, and an entry written into one changes what every later extraction of the document sees", 5, 0)
+	for _, fn := range c.P.ModuleFuncs() {
+		if fn.Pkg == nil || strings.Contains(eng.FuncName(fn), eng.PositivePkg) {
+			continue
+		}
+		if fn.Signature.Recv() != nil && strings.HasSuffix(eng.TypeName(fn.Signature.Recv().Type()), "core.Dict") {
+			continue // the setter itself: its call sites are judged
+		}
+		n := 0
+		eng.Instrs(fn, false, func(in ssa.Instruction) {
+			var target ssa.Value
+			switch x := in.(type) {
+			case *ssa.MapUpdate:
+				target = x.Map
+			case ssa.CallInstruction:
+				if eng.CalleeName(x) == "core.Dict.Set" && len(x.Common().Args) > 0 {
+					target = x.Common().Args[0]
+				}
+			}
+			if target == nil || !strings.HasSuffix(eng.TypeName(target.Type()), "core.Dict") {
+				return
+			}
+			mu := struct {
+				Map ssa.Value
+				p   token.Pos
+			}{target, in.Pos()}
+			n++
+			// every origin of the map value is a make in this function
+			fresh, any := true, false
+			var walk func(v ssa.Value, d int)
+			seen := map[ssa.Value]bool{}
+			walk = func(v ssa.Value, d int) {
+				if seen[v] || d > 8 {
+					return
+				}
+				seen[v] = true
+				switch x := v.(type) {
+				case *ssa.MakeMap:
+					any = true
+				case *ssa.Phi:
+					for _, e := range x.Edges {
+						walk(e, d+1)
+					}
+				case *ssa.ChangeType:
+					walk(x.X, d+1)
+				case *ssa.UnOp:
+					// a local variable holding the map: its stores
+					if a, ok := x.X.(*ssa.Alloc); ok && x.Op == token.MUL {
+						for _, r := range *a.Referrers() {
+							if st, ok := r.(*ssa.Store); ok && st.Addr == ssa.Value(a) {
+								walk(st.Val, d+1)
+							}
+						}
+						return
+					}
+					fresh = false
+				default:
+					fresh = false
+				}
+			}
+			walk(mu.Map, 0)
+			c.Check(fresh && any, R, fmt.Sprintf("%s#dict-write%d", eng.FuncName(fn), n), mu.p, "writes a dictionary it created", "writes an entry into a dictionary it did not create (a parsed object that the reader caches and hands to every later lookup): the document seen by later extractions changes")
+		})
+	}
+}
+
+// R3.7 [C03]
+func ruleCacheKeyAgreement(c *eng.Ctx) {
+	const R = "R3.7-CACHE-KEY-AGREEMENT"
+	c.Rule(R, "a method that both probes and fills a map kept in a field of its receiver (a cache) uses the same key for both: a cache filled under one quantity (object number) and probed under another (index in the stream) answers a later lookup with an earlier, different object, so what a reference resolves to depends on what was looked up before", 4, 0)
+	for _, fn := range c.P.ModuleFuncs() {
+		if fn.Pkg == nil || fn.Signature.Recv() == nil || len(fn.Params) == 0 || strings.Contains(eng.FuncName(fn), eng.PositivePkg) {
+			continue
+		}
+		type use struct {
+			key ssa.Value
+			pos token.Pos
+		}
+		looks, fills := map[string][]use{}, map[string][]use{}
+		field := func(m ssa.Value) (string, bool) {
+			fr, ok := eng.LoadOfField(m)
+			if !ok {
+				return "", false
+			}
+			if ld, ok := m.(*ssa.UnOp); ok {
+				if fa, ok := ld.X.(*ssa.FieldAddr); ok && fa.X == ssa.Value(fn.Params[0]) {
+					return fr.Field, true
+				}
+			}
+			return "", false
+		}
+		eng.Instrs(fn, false, func(in ssa.Instruction) {
+			switch x := in.(type) {
+			case *ssa.Lookup:
+				if _, isMap := x.X.Type().Underlying().(*types.Map); isMap {
+					if f, ok := field(x.X); ok {
+						looks[f] = append(looks[f], use{x.Index, x.Pos()})
+					}
+				}
+			case *ssa.MapUpdate:
+				if f, ok := field(x.Map); ok {
+					fills[f] = append(fills[f], use{x.Key, x.Pos()})
+				}
+			}
+		})
+		roles := func(v ssa.Value) string {
+			var fs []string
+			for w := range eng.Slice(v, nil) {
+				if fr, ok := eng.AsField(w); ok {
+					fs = append(fs, fr.Field)
+				}
+				if p, ok := w.(*ssa.Parameter); ok && p != fn.Params[0] {
+					fs = append(fs, "param:"+p.Name())
+				}
+			}
+			sort.Strings(fs)
+			out := fs[:0]
+			for i, f := range fs {
+				if i == 0 || f != fs[i-1] {
+					out = append(out, f)
+				}
+			}
+			return strings.Join(out, ",")
+		}
+		var names []string
+		for f := range looks {
+			if len(fills[f]) > 0 {
+				names = append(names, f)
+			}
+		}
+		sort.Strings(names)
+		for _, f := range names {
+			bad := ""
+			for _, l := range looks[f] {
+				for _, u := range fills[f] {
+					if l.key == u.key || eng.SameValue(l.key, u.key) {
+						continue
+					}
+					if rl, ru := roles(l.key), roles(u.key); rl != ru {
+						bad = fmt.Sprintf("probed with a key built from {%s} at %s, filled with a key built from {%s} at %s", rl, c.P.Pos(l.pos), ru, c.P.Pos(u.pos))
+					}
+				}
+			}
+			c.Check(bad == "", R, eng.FuncName(fn)+"#"+f, fn.Pos(), "probe and fill use the same key", "the cache "+f+" is "+bad+": an entry stored for one quantity is returned for another")
+		}
+	}
+}
+
+// R7.10 [C07]
+func ruleByteAssembly(c *eng.Ctx) {
+	const R = "R7.10-BYTE-ASSEMBLY"
+	c.Rule(R, "a multi-byte value assembled from consecutive elements of one slice (b[i]<<16 | b[i+1]<<8 | b[i+2]) takes each position once and each shift once: a repeated index leaves one byte of the code out, so every code of that width is looked up under the wrong key", 2, 1)
+	for _, fn := range c.P.ModuleFuncs() {
+		if fn.Blocks == nil {
+			continue
+		}
+		n := 0
+		isRoot := func(b *ssa.BinOp) bool {
+			if b.Op != token.OR && b.Op != token.ADD {
+				return false
+			}
+			for _, r := range *b.Referrers() {
+				if p, ok := r.(*ssa.BinOp); ok && (p.Op == token.OR || p.Op == token.ADD) {
+					return false
+				}
+			}
+			return true
+		}
+		eng.Instrs(fn, false, func(in ssa.Instruction) {
+			root, ok := in.(*ssa.BinOp)
+			if !ok || !isRoot(root) {
+				return
+			}
+			type term struct {
+				base  ssa.Value
+				idx   string
+				shift int64
+			}
+			var terms []term
+			okTree := true
+			var leafTerm func(v ssa.Value, shift int64)
+			leafTerm = func(v ssa.Value, shift int64) {
+				switch x := v.(type) {
+				case *ssa.Convert:
+					leafTerm(x.X, shift)
+				case *ssa.BinOp:
+					switch x.Op {
+					case token.OR, token.ADD:
+						leafTerm(x.X, shift)
+						leafTerm(x.Y, shift)
+					case token.SHL:
+						if k, ok := eng.ConstInt(x.Y); ok {
+							leafTerm(x.X, shift+k)
+						} else {
+							okTree = false
+						}
+					default:
+						okTree = false
+					}
+				case *ssa.UnOp:
+					if x.Op != token.MUL {
+						okTree = false
+						return
+					}
+					ia, ok := x.X.(*ssa.IndexAddr)
+					if !ok {
+						okTree = false
+						return
+					}
+					p, ok := eng.IntPoly(ia.Index, func(v ssa.Value) (*eng.Poly, bool) { return eng.PSym(v.Name()), true })
+					if !ok {
+						okTree = false
+						return
+					}
+					terms = append(terms, term{ia.X, p.String(), shift})
+				case *ssa.Index:
+					p, ok := eng.IntPoly(x.Index, func(v ssa.Value) (*eng.Poly, bool) { return eng.PSym(v.Name()), true })
+					if !ok {
+						okTree = false
+						return
+					}
+					terms = append(terms, term{x.X, p.String(), shift})
+				default:
+					okTree = false
+				}
+			}
+			leafTerm(root, 0)
+			if !okTree || len(terms) < 2 {
+				return
+			}
+			shifted := false
+			for _, t := range terms {
+				if t.shift > 0 {
+					shifted = true
+				}
+			}
+			if !shifted {
+				return // a plain sum of elements, not an assembly of one value
+			}
+			for _, t := range terms[1:] {
+				if t.base != terms[0].base && !eng.SameValue(t.base, terms[0].base) {
+					return
+				}
+			}
+			n++
+			bad := ""
+			seenIdx, seenShift := map[string]bool{}, map[int64]bool{}
+			for _, t := range terms {
+				if seenIdx[t.idx] {
+					bad = "element " + t.idx + " is used twice"
+				}
+				if seenShift[t.shift] {
+					bad = fmt.Sprintf("two elements are shifted by %d", t.shift)
+				}
+				seenIdx[t.idx], seenShift[t.shift] = true, true
+			}
+			c.Check(bad == "", R, fmt.Sprintf("%s#assembly%d", eng.FuncName(fn), n), root.Pos(), "each position and shift used once", "in a value assembled from consecutive bytes "+bad+": one byte of the value is left out")
+		})
+	}
+}
